@@ -89,17 +89,23 @@ func NewNode(ctx context.Context, w *World, fl string) (*Node, error) {
 		sh, ks := gnosis.VerifGnosisSlotHandlers(n.Pool)
 		n.Msg.AddMessageHandler(sh)
 		n.Msg.AddMessageHandler(ks)
+		n.record(sh, ks)
 		gcfg := &gnosis.Config{InstanceID: InstanceID, MaxNumKeysPerMessage: MaxPerMsg,
 			Gnosis: &gnosis.GnosisConfig{Node: node, SecondsPerSlot: 5, GenesisSlotTimestamp: 1_600_000_000}}
 		mw := gnosis.NewMessagingMiddleware(n.Msg, n.Pool, gcfg)
-		mw.AddMessageHandler(core()...)
+		ch := core()
+		mw.AddMessageHandler(ch...)
+		n.record(ch...)
 	case "service":
 		sh, ks := shutterservice.VerifGossipvalHandlers(n.Pool)
 		n.Msg.AddMessageHandler(sh)
 		n.Msg.AddMessageHandler(ks)
+		n.record(sh, ks)
 		scfg := &shutterservice.Config{InstanceID: InstanceID, MaxNumKeysPerMessage: MaxPerMsg, Chain: &shutterservice.ChainConfig{Node: node}}
 		mw := shutterservice.NewMessagingMiddleware(n.Msg, n.Pool, scfg)
-		mw.AddMessageHandler(core()...)
+		ch := core()
+		mw.AddMessageHandler(ch...)
+		n.record(ch...)
 	case "primev":
 		ch := make(chan *broker.Event[*epochkghandler.DecryptionTrigger])
 		n.closers = append(n.closers, drain(ch))
